@@ -36,6 +36,14 @@ class Pickler:
         self.memo = []
         self.kwargs = kwargs
     def save(self, obj, save_persistent_id=None):
+        if isinstance(obj, bytes):
+            # a leaf value that the real pickler memoises as well (bytes, str): written whole the first time, as a reference afterwards
+            if obj in self.memo:
+                self.write(("REF", obj))
+                return
+            self.write(("BYTES", obj))
+            self.memoize(obj)
+            return
         if obj in self.memo:
             self.write(("REF", obj.tag))
             return
@@ -45,8 +53,9 @@ class Pickler:
             self.save(c)
         self.write(("CLOSE", obj.tag))
     def memoize(self, obj):
+        assert not any(m is obj for m in self.memo)      # pickle.Pickler.memoize asserts that an object is memoised once
         self.memo.append(obj)
-        self.write(("MEMO", obj.tag))
+        self.write(("MEMO", obj if isinstance(obj, bytes) else obj.tag))
     def dump(self, obj):
         self.save(obj)
         self.write("STOP")
@@ -80,12 +89,16 @@ def trees(maxn):
     return shapes
 
 
-def build(h, g, shape, share=None):
-    """-> root Node object; `share`: (i, j) makes the j-th node (pre-order) an extra child reference to the i-th."""
+def build(h, g, shape, share=None, leaf_bytes=False):
+    """-> root Node object; `share`: (i, j) makes the j-th node (pre-order) an extra child reference to the i-th.  With leaf_bytes the
+    childless nodes below the root are bytes values (leaf objects that the pickler memoises too)."""
     nodes = []
 
-    def mk(s):
+    def mk(s, top=False):
         idx = len(nodes)
+        if leaf_bytes and not top and len(s) == 1:
+            nodes.append(f"leaf-{idx}".encode())
+            return nodes[-1]
         n = h.I.call(g["Node"], [f"n{idx}", Seq([], "list")], {})
         n.name = f"n{idx}"
         nodes.append(n)
@@ -93,10 +106,10 @@ def build(h, g, shape, share=None):
             n.fields["children"].items.append(mk(k))
         return n
 
-    root = mk(shape)
+    root = mk(shape, True)
     if share is not None:
         i, j = share
-        if i < len(nodes) and j < len(nodes) and i != j:
+        if i < len(nodes) and j < len(nodes) and i != j and isinstance(nodes[j], Obj):
             nodes[j].fields["children"].items.append(nodes[i])
     return root, nodes
 
@@ -105,6 +118,14 @@ def reference(root):
     ev, memo = [], []
 
     def save(n):
+        if isinstance(n, bytes):
+            if any(n is m for m in memo):
+                ev.append(("REF", n))
+            else:
+                ev.append(("BYTES", n))
+                memo.append(n)
+                ev.append(("MEMO", n))
+            return
         if any(n is m for m in memo):
             ev.append(("REF", n.name))
             return
@@ -155,12 +176,13 @@ def run(ctx):
         for i, j in itertools.permutations(range(size), 2):
             if ctx.thorough or (i + j) % 2 == 1 or size <= 3:
                 cases.append((s, (i, j)))
-    for shape, share in cases:
+    cases = [(s_, sh_, False) for s_, sh_ in cases] + [(s_, sh_, True) for s_, sh_ in cases if "leaf" in str(s_)[6:]]
+    for shape, share, leaf_bytes in cases:
         for entry in ("dumps", "dump"):
             try:
                 h.reset()
                 h.settle()
-                root, nodes = build(h, stub, shape, share)
+                root, nodes = build(h, stub, shape, share, leaf_bytes)
                 if entry == "dumps":
                     out = h.call(mod["dumps"], root)
                     events = out.value.items if out.kind == "return" and isinstance(out.value, Seq) else None
@@ -192,9 +214,10 @@ def run(ctx):
                     why = f"operations reach the file as {body}, the recursive pickler's order is {want}"
                 elif not got or got[-1] != b"." and got[-1] != "STOP":
                     why = f"STOP is not the last thing written: {tail}"
-            res.ob(why is None, sig=(shape, share, entry), sample={"shape": str(shape), "shared": share, "entry": entry})
+            res.ob(why is None, sig=(shape, share, entry, leaf_bytes), sample={"shape": str(shape), "shared": share, "entry": entry, "bytes_leaves": leaf_bytes})
             if why:
-                res.violation("SPLICE-ORDER", MOD + "._NonrecursivePickler.dump", f"shared-object={share is not None},entry={entry}", f"object graph {shape} share={share} through {entry}: {why}")
+                res.violation("SPLICE-ORDER", MOD + "._NonrecursivePickler.dump", f"shared-object={share is not None},entry={entry}" + (",leaves-are-bytes-values" if leaf_bytes else ""),
+                              f"object graph {shape} share={share}{' (childless nodes are bytes values)' if leaf_bytes else ''} through {entry}: {why}")
     res.rule("SPLICE-ORDER", n)
     # ---- NONREC: constant call depth on chains
     depths = {}
@@ -227,7 +250,7 @@ def run(ctx):
     # ---- the copy is usable: graphs copied through the object protocol into fresh class-level state answer every structural query,
     # traversal and search like the original's reference model, before and after every public mutation, caching on or off
     from rules import hist
-    hist.run(ctx, res, "C10", rule="COPY-HISTORY", schedules=("unpickled-on", "unpickled-off"))
+    hist.run(ctx, res, "C10", rule="COPY-HISTORY", schedules=("unpickled-on", "unpickled-warm-on", "unpickled-off"))
     common.vacuity(res, "COPY-HISTORY", 8000)
     common.vacuity(res, "SPLICE-ORDER", 60)
     res.analysed = common.analysed(ctx, [MOD + ".dumps", MOD + ".dump", MOD + "._NonrecursivePickler.dump", MOD + "._NonrecursivePickler.save"])
